@@ -103,7 +103,9 @@ func Recover(suite suites.Suite, public *share.PubPoly, msg []byte, sigs [][]byt
 			// too short to carry an index: skipped like any other invalid share
 			continue
 		}
-		if _, dup := seen[i]; dup {
+		if _, dup := seen[i]; dup || i >= n {
+			// RecoverCommit ignores indices outside [0,n): they must not
+			// take one of the t places either
 			continue
 		}
 		if err = bls.Verify(suite, public.Eval(i).V, msg, s.Value()); err != nil {
